@@ -505,9 +505,64 @@ static void fam_utf8(void)
 		}
 }
 
+/* ---- family 5: long tokens crossing the scanner's buffer growth (32, 64, 128 bytes) ---- */
+static void fam_long(void)
+{
+	cur_fam = "long-tokens";
+	static const int lens[] = {30, 31, 32, 33, 62, 63, 64, 65, 127, 128, 129};
+	static const char *ins[] = {"\\n", "\\u00e9", "\\ud83d\\ude00", "\xc3\xa9", "\\\\", "\\ud800"};
+	for (unsigned l = 0; l < sizeof lens / sizeof lens[0]; l++)
+		for (int pos = 0; pos <= lens[l]; pos += (lens[l] > 70 && pos > 2 && pos < lens[l] - 2) ? 7 : 1)
+			for (unsigned k = 0; k < sizeof ins / sizeof ins[0]; k++)
+			{
+				sb_reset(&txt);
+				sb_putc(&txt, '"');
+				for (int i = 0; i < lens[l]; i++)
+				{
+					if (i == pos)
+						sb_puts(&txt, ins[k]);
+					sb_putc(&txt, (char)('a' + i % 26));
+				}
+				if (pos == lens[l])
+					sb_puts(&txt, ins[k]);
+				sb_putc(&txt, '"');
+				set_text(txt.p, txt.n);
+				one((int)(k & 1), (int)((pos + (int)k) & 1));
+				/* the same as a member name with the string as its value too */
+				memmove(T + 1, T, TL);
+				T[0] = '{';
+				T[1 + TL] = ':';
+				memcpy(T + 2 + TL, T + 1, TL);
+				T[2 + 2 * TL] = '}';
+				TL = 3 + 2 * TL;
+				one((int)(~k & 1), (int)((pos + (int)k + 1) & 1));
+			}
+	/* long numbers */
+	for (int digits = 17; digits <= 70; digits += (digits < 24 ? 1 : 9))
+		for (int form = 0; form < 4; form++)
+		{
+			sb_reset(&txt);
+			if (form & 1)
+				sb_putc(&txt, '-');
+			for (int i = 0; i < digits; i++)
+				sb_putc(&txt, (char)('1' + i % 9));
+			if (form & 2)
+			{
+				sb_putc(&txt, '.');
+				for (int i = 0; i < digits; i++)
+					sb_putc(&txt, (char)('0' + (i * 7) % 10));
+				sb_puts(&txt, "e-5");
+			}
+			set_text(txt.p, txt.n);
+			number_contexts(sb_str(&txt));
+		}
+}
+
 static void enumerate(void)
 {
 	const char *only = mc_opt("fam", "");
+	if (!*only || !strcmp(only, "long"))
+		fam_long();
 	if (!*only || !strcmp(only, "escapes"))
 		fam_escapes();
 	if (!*only || !strcmp(only, "numbers"))
